@@ -856,6 +856,25 @@ def _evaluate(desc):
                     if bad:
                         ev.oracle.append("walk: %s: path %s %s" % (tagname, "-".join(p), bad))
                         break
+            # ending clause (independent of the code's segment table): a version may stop before the end of the part
+            # only at a Fine, and only after the da capo / dal segno instruction has been reached
+            # (parts with volta brackets are excluded: the last pass may legitimately end in a bracket that is not the
+            # last one in time, e.g. tests/data/musicxml/test_unfold_volta_numbers.xml)
+            if psegtab and plist and not list(part.iter_all(S.Ending)):
+                part_end = max(e_ for _, e_ in psegtab.values())
+                fines = set(o.start.t for o in part.iter_all(S.Fine))
+                jumps = set(o.start.t for o in part.iter_all(S.DaCapo)) | set(o.start.t for o in part.iter_all(S.DalSegno))
+                for p in plist:
+                    if not p or any(x not in psegtab for x in p):
+                        continue
+                    e_last = psegtab[p[-1]][1]
+                    if e_last != part_end:
+                        reached = any(psegtab[x][1] in jumps for x in p[:-1])
+                        if e_last not in fines or not reached:
+                            ev.oracle.append("ending: %s: path %s stops at t=%d before the end of the part (%d) %s" % (
+                                tagname, "-".join(p), e_last, part_end,
+                                "where there is no Fine" if e_last not in fines else "at a Fine although no da capo / dal segno was reached"))
+                            break
         keyparts.append((nr, ar, il))
 
         # ---- shape clauses
